@@ -96,10 +96,37 @@ def walks(ck, n, nwalks, steps, seed, kind="intdup", corrupt=None, job="c06_walk
     rs = np.random.RandomState(seed + 99)
     _clear_array_caches()
     edges, issues = [], []
+    from phyclone.tree import Tree
+    held = {"dicts": None}
+
+    def on_state(cur, sub, state, act):
+        """A dictionary taken from a tree BEFORE an in-place edit must still restore to that earlier tree afterwards,
+        with arrays equal to a from-scratch build of that earlier state."""
+        out = []
+        if held["dicts"] is not None:
+            for d_, key_, nm in held["dicts"]:
+                try:
+                    back = Tree.from_dict(d_)
+                    k2 = absstate.project(back, full=True)[0]
+                    if k2 != key_:
+                        out.append("the dictionary taken from the %s tree before %s restores to %s, it was taken from %s" % (nm, act["name"], absstate.key_str(k2), absstate.key_str(key_)))
+                    else:
+                        m = treeadt.compare_with_fresh(back, data, None, 1e-8)
+                        if m:
+                            out.append("the tree restored from a dictionary taken before %s: %s" % (act["name"], m))
+                except absstate.Inconsistent as ex:
+                    out.append("the dictionary taken before %s restores to a malformed tree: %s" % (act["name"], ex))
+        try:
+            held["dicts"] = [(t.to_dict(), absstate.project(t, full=True)[0], nm) for t, nm in ((cur, "current"), (sub, "side"))]
+        except absstate.Inconsistent:
+            held["dicts"] = None
+        return out
+
     for w in range(nwalks):
-        e, iss = treeadt.walk(data, list(range(n)), steps, rs, make_dist(), oracle=oracle)
+        held["dicts"] = None
+        e, iss = treeadt.walk(data, list(range(n)), steps, rs, make_dist(), oracle=oracle, on_state=(on_state if w % 2 == 0 else None))
         edges += e
-        issues += iss
+        issues += [(("stale" if k_ == "callback" else k_), it) for k_, it in iss]
     if corrupt == "edge" and edges:
         edges[len(edges) // 2]["dst"]["cur"]["outl"] = sorted(set(edges[len(edges) // 2]["dst"]["cur"]["outl"]) ^ {0})
     r, unmatched = treeadt.validate_edges(job + "_trace", edges, list(range(n)))
